@@ -26,8 +26,8 @@ CHECKS = {
  "C04": dict(tech=ORACLE + " (exact integer MacroVector model, independent 270-cell table); complete effective-class sweep",
    text="All 15,116,544 effective classes (270/270 MacroVectors) are realised on real objects through base and/or Modified metrics and Score() must equal the exact half-up value of the section 8 algorithm with no tolerance; random raw assignments and supplemental-metric siblings added.",
    note="trusts the transcription of Tables 24-30 / section 8.2 in harness/spec/score_v4.go and the independently sourced lookup data", ref="3 C04"),
- "C05": dict(tech=ORACLE + " (exact rational arithmetic with either-neighbour ties); complete enumeration in thorough",
-   text="Every one of the 139,968,000 v2.0 assignments (thorough; quick: all base x temporal + a 1/8 stride of the environmental grid over all impact/exploitability/requirement classes) is built through the API and its three scores must lie in the oracle's conforming set, sub-scores within 1e-9.",
+ "C05": dict(tech=ORACLE + " (exact rational arithmetic with either-neighbour ties); complete enumeration of the whole input space in both tiers",
+   text="Every one of the 139,968,000 v2.0 assignments is built through the API, in both tiers, and its three scores must lie in the oracle's conforming set (either neighbour on an exact tie), sub-scores within 1e-9; thorough repeats the complete pass in random history styles.",
    note="trusts the transcription of the v2 guide equations in harness/spec/score_v2.go", ref="3 C05"),
  "C07": dict(tech="runtime monitoring: shadow-map monitor on every Set of complete (m,v,m',v') quadruple matrices and random hostile Set histories; == monitor",
    text="Complete quadruple matrix on three backgrounds (all-max codes expose masks one bit too wide), failing Sets must leave the object bit-identical, random histories of up to 200 Sets are checked against a shadow map after every step, and equal maps must give == objects whatever the history.",
